@@ -118,7 +118,7 @@ def wfCol (s : Str) : Bool := free ['\t', '\n'] s
 
 /-- a feature of a record given to `gff.Build` (`locus` = Meta.Locus.Name, used for an empty seqid) -/
 def wfFeature (locus : Str) (f : Feature) : Bool :=
-  wfCol f.name && wfCol locus && !hasPrefix sHash2 (if f.name ≠ [] then f.name else locus)
+  wfCol f.name && wfCol locus && !hasPrefix sHash1 (if f.name ≠ [] then f.name else locus)
   && wfCol f.source && wfCol f.type && wfCol f.score && wfCol f.strand && wfCol f.phase
   && inInt f.start && inInt (f.start + 1) && inInt f.stop && wfAttrs f.attrs
 
@@ -131,7 +131,7 @@ def wfBuild (x : Gff) : Bool :=
 
 /-- a feature line of a document given to the independent writer -/
 def wfFeatLine (f : FeatLine) : Bool :=
-  wfCol f.seqid && !hasPrefix sHash2 f.seqid
+  wfCol f.seqid && !hasPrefix sHash1 f.seqid
   && wfCol f.source && wfCol f.type && wfCol f.score && wfCol f.strand && wfCol f.phase
   && inInt f.first && inInt f.last && wfAttrs f.attrs
 
